@@ -91,16 +91,18 @@ CFG = {
                   "Round 4 (Props/C19C15.lean): list_key composes C19 with C15 - in any application state whose focus path runs through a Dynamic list, a j key "
                   "is offered to the list in the capture phase, the list (its executed CaptureEvent) moves the selection and answers ConsumeAndRedraw, and the "
                   "dispatch ends there with redraw and consume taking effect once (no other handler sees the key); else the key goes on along the route. "
-                  "Round 4 (Props/C19Wid.lean, 18 theorems): list_selected_visible_body, pager_presents_every_character_body, scrollbar_in_track_body (the clauses "
+                  "Round 4 (Props/C19Wid.lean, 19 theorems; 125 theorems in all, 98 before the round): list_selected_visible_body, pager_presents_every_character_body, scrollbar_in_track_body (the clauses "
                   "end to end for the executed code: New + any history + Draw; Segments=text, Draw, ScrollDown x i, Draw shows every character of every line; "
-                  "bar inside the track), list_new_body_eq_model, wid_fully_recognised, wid_bodies_as_expected, gen_bodies_parsed, list_rhs_is_gen, "
+                  "bar inside the track), list_new_body_eq_model, pager_zero_width_shares_cell (why the hypothesis 'characters at least one column wide' is needed), wid_fully_recognised, wid_bodies_as_expected, gen_bodies_parsed, list_rhs_is_gen, "
                   "minmax_body_eq_model, list_index_body_eq_model, list_step_body_eq_model (every List method incl. Draw's range loop over the checked "
                   "slice: same state, rows, panics), list_history_body_eq_model, pager_layout_body_eq_model, pager_draw_body_eq_model (state AND window "
                   "cell by cell), pager_scroll_body_eq_model, pager_history_body_eq_model, pager_offset_clamped_body, scrollbar_draw_body_eq_model "
                   "(all integers, fuel >= h+2: the loop terminates) - proved for all inputs. The textual pins of the extractor (embedded expected bodies) "
                   "are gone; the extractor degrades (UNTRANSLATED placeholder) instead of failing. Validated by correspondence only: that "
                   "Model/WidExec.lean's semantics is Go's for this subset (every sl/pg/sb op is run through it beside the model: 0 disagreements). "
-                  "Modelled, not verified: the Fill cell, styles beyond the attribute.",
+                  "Modelled, not verified: the Fill cell, styles beyond the attribute. Oracles on the implementation's output added in round 4 (independent of the model: the driver "
+                  "tracks the offset the implementation reported last): Draw clamps the offset as a projection onto 0..max 0 (lines-h) for the lines after the draw; ScrollDown/ScrollUp move "
+                  "it by exactly one; a line is broken only at a newline, at the end of the text or when its width has reached the window width.",
     "assumptions": [
         "Dynamic list: the Builder has fewer than 2^63 items and is prefix-closed (nil from the first missing index on); an endless Builder is covered by F119i only: Draw does not return when all its widgets have height 0 and the gap is 0 (endless_builder_never_returns) and returns within a bounded frame when every widget has height + gap >= 1 (endless_builder_with_progress_returns, initial scroll state)",
         "integer arithmetic of widgets/list, widgets/pager and widgets/scrollbar does not overflow Go's int (64 bit): index+height, ViewHeight*h, Top*h stay below 2^63 (the models use unbounded integers)",
